@@ -118,7 +118,10 @@ Definition dec_payload (t : tree) : option payload :=
   match t with
   | T [L 0; j] => Some (PJson j)
   | T [L 1; L 0] => Some (PUn UType)
-  | T [L 1; L 1; s] => s <- getZs s ;; Some (PUn (UValue s))
+  (* the float the harness builds: +Inf / -Inf when the text says so, NaN for ANY other text (so that every decodable
+     input - e.g. one the shrinker reached - denotes the value the harness really passes) *)
+  | T [L 1; L 1; s] => s <- getZs s ;;
+      Some (PUn (UValue (if bytes_eqb s [43; 73; 110; 102] || bytes_eqb s [45; 73; 110; 102] then s else [78; 97; 78])))
   | T [L 1; L 2] => Some (PUn UMarsh)
   (* with a variant number: WHICH Go value of that kind the harness builds (chan in a map / func / anonymous struct
      type with a tagged chan field; Marshaler failing with a plain text / with a text full of quotes, backslashes and
@@ -482,8 +485,8 @@ Definition ans_eqb (a b : Z * list tree) : bool := (fst a =? fst b) && list_eqb 
 (* observable components (C14): 11 answers per event, 12 multiset of bulk requests, 13 quiescence reached,
    14 events answered when Shutdown returned (gate scenarios).
    The high-water mark is schedule-dependent and only judged by clause 4. *)
-Definition eobs_diffs (m o : eobs) : list Z :=
-  if eo_unreliable o then []
+Definition eobs_diffs (dom : bool) (m o : eobs) : list Z :=
+  if eo_unreliable o || negb dom then []      (* outside the quantifier (e.g. two events with one id) nothing is compared *)
   else diff_if (list_eqb ans_eqb (eo_answers m) (eo_answers o)) 11
        ++ diff_if (calls_perm (eo_calls m) (eo_calls o)) 12
        ++ diff_if (Bool.eqb (eo_timeout m) (eo_timeout o)) 13
@@ -521,7 +524,7 @@ Definition judge14 (ti to : tree) : tree :=
       if e_fuel_out (es_run (ei_cfg i) (ei_script i) (ei_ops i) (ei_clean i)) then malformed
       else
         let m := model_eobs i in
-        verdict (eobs_diffs m o) (spec_c14 i o) (enc_eobs m) (etags i o)
+        verdict (eobs_diffs (in_domain14 i) m o) (spec_c14 i o) (enc_eobs m) (etags i o)
   | _, _ => malformed
   end.
 
